@@ -1,0 +1,8 @@
+//go:build !verif
+
+package s2
+
+// No-op counterparts of the monitor hooks in verif_sched.go.
+
+func verifSched(string) {}
+func verifCount(string) {}
